@@ -1143,3 +1143,202 @@ def c25_unsat(R):
             )
     R.check(any(ast.unparse(h.type) == "ClaripyBalancerUnsatError" for h in hs), m, init, "Balancer.__init__ handles ClaripyBalancerUnsatError",
             "Balancer.__init__ no longer maps ClaripyBalancerUnsatError to sat=False", construct="Balancer.__init__ unsat handler")
+
+
+@rule(
+    "C24.wrapcmp",
+    props=("C24", "C13", "C21"),
+    floor=2,
+    family="WHO",
+    desc="outside the interval implementation (StridedInterval and its set subclass) nothing orders values against an interval's raw lower_bound / "
+    "upper_bound attributes: intervals wrap (the signed range [-5, 5] is stored as lower 0xfffffffb, upper 5), so "
+    "`lower_bound <= v <= upper_bound` is not membership; membership, min and max are StridedInterval's methods",
+)
+def c24_wrapcmp(R):
+    tree = R.tree
+    n = 0
+    for m in tree.modules.values():
+        if m.path.endswith(("backend_vsa/strided_interval.py", "backend_vsa/discrete_strided_interval_set.py")):
+            continue  # the interval implementation itself (the set class extends StridedInterval)
+        reads = [x for x in ast.walk(m.tree) if isinstance(x, ast.Attribute) and x.attr in ("lower_bound", "upper_bound")]
+        if not reads:
+            continue
+        n += 1
+        bad = []
+        for c in (x for x in ast.walk(m.tree) if isinstance(x, ast.Compare)):
+            if not any(isinstance(o, (ast.Lt, ast.LtE, ast.Gt, ast.GtE)) for o in c.ops):
+                continue
+            sides = [c.left, *c.comparators]
+            if any(isinstance(s, ast.Attribute) and s.attr in ("lower_bound", "upper_bound") for s in sides):
+                bad.append(c)
+        for c in bad:
+            R.bad(
+                m,
+                c,
+                f"`{norm(c)}` orders a value against an interval's raw bounds outside StridedInterval: for a wrapped "
+                f"interval (lower_bound > upper_bound) the test rejects members / accepts non-members",
+            )
+        if not bad:
+            R.ok(m, m.tree, f"{m.path}: bounds are only passed on, never ordered against")
+    R.need(n >= 2, "modules reading interval bounds not found")
+
+
+@rule(
+    "C23.hashfields",
+    props=("C23", "C21"),
+    floor=5,
+    family="SIB",
+    desc="StridedInterval.__hash__ consumes every field that copy() carries and that changes the denoted set of "
+    "values (width, bounds, stride, the lazy byte-reversal flag): interval sets keep their members in a Python set "
+    "and StridedInterval.__eq__ is always truthy, so two members with one hash collapse into one",
+)
+def c23_hashfields(R):
+    tree = R.tree
+    m = tree.mod(SI)
+    cls = tree.cls(SI, "StridedInterval")
+    ms = util.methods_of(cls)
+    h, cp = ms.get("__hash__"), ms.get("copy")
+    R.need(h is not None and cp is not None, "StridedInterval.__hash__/copy not found")
+    carried = {}
+    for c in (x for x in ast.walk(cp) if isinstance(x, ast.Call) and (dotted(x.func) or "") == "StridedInterval"):
+        for k in c.keywords:
+            if k.arg and isinstance(k.value, ast.Attribute) and isinstance(k.value.value, ast.Name) and k.value.value.id == "self":
+                carried[k.arg] = k.value.attr
+    R.need(len(carried) >= 6, "copy() no longer passes the interval's fields by keyword")
+    presentation = {"name": "a label, not part of the value", "bottom": "bottom is encoded in the bounds as well", "uninitialized": "provenance flag"}
+    hashed = {a.lstrip("_") for a, _ in util.attr_reads(h, "self")}
+    for kw_, attr in sorted(carried.items()):
+        if kw_ in presentation:
+            R.ok(m, h, f"{kw_}: {presentation[kw_]}")
+            continue
+        R.check(
+            attr.lstrip("_") in hashed,
+            m,
+            h,
+            f"__hash__ covers {attr}",
+            f"StridedInterval.__hash__ ignores `{attr}`, which copy() carries and which changes the set of values the "
+            f"interval denotes: two different intervals hash alike and a DiscreteStridedIntervalSet (a Python set of "
+            f"members whose __eq__ is always truthy) silently drops one of them",
+            construct=f"__hash__ covers {attr.lstrip('_')}",
+        )
+
+
+def _pol_minmax(name):
+    low = name.lower()
+    parts = [p for p in low.replace(".", "_").split("_") if p]
+    has_min = "min" in parts or "lower" in parts or "lb" in parts
+    has_max = "max" in parts or "upper" in parts or "ub" in parts
+    if has_min == has_max:
+        return None
+    return "min" if has_min else "max"
+
+
+def _pol_side(name):
+    parts = [p for p in name.lower().split("_") if p]
+    l = any(p in ("left", "lhs") for p in parts)
+    r = any(p in ("right", "rhs") for p in parts)
+    if l == r:
+        return None
+    return 0 if l else 1
+
+
+@rule(
+    "C25.names",
+    props=("C25",),
+    floor=10,
+    family="TAB",
+    desc="polarity of the balancer's bound bookkeeping: a local named *_min / *_max is fed by the minimum / maximum "
+    "query or by values of the same polarity (no negation or subtraction in between), the pair returned by _range is "
+    "unpacked as (min, max), and a local named left_* / right_* that is cut out of one side of the comparison is cut "
+    "out of truism.args[0] / truism.args[1]",
+)
+def c25_names(R):
+    tree = R.tree
+    m = tree.mod(BAL)
+    cls = tree.cls(BAL, "Balancer")
+    ms = util.methods_of(cls)
+    n = 0
+    # order of the pair returned by _range
+    rng = ms.get("_range")
+    order = None
+    if rng is not None:
+        rets = [r for r in walk_no_nested(rng) if isinstance(r, ast.Return)]
+        if len(rets) == 1 and isinstance(rets[0].value, ast.Tuple) and len(rets[0].value.elts) == 2:
+            pols = []
+            for e in rets[0].value.elts:
+                d = (dotted(e.func) or "") if isinstance(e, ast.Call) else ast.unparse(e)
+                pols.append(_pol_minmax(d.split(".")[-1]))
+            if None not in pols:
+                order = tuple(pols)
+                n += 1
+                R.check(order == ("min", "max"), m, rets[0], "_range returns (min, max)", f"_range returns {order}", construct="_range order")
+    for name, fn in ms.items():
+        for st in walk_no_nested(fn):
+            if not isinstance(st, ast.Assign) or len(st.targets) != 1:
+                continue
+            tg, val = st.targets[0], st.value
+            # (min, max) = _range(..)
+            if isinstance(tg, ast.Tuple) and len(tg.elts) == 2 and isinstance(val, ast.Call) and (dotted(val.func) or "").endswith("_range") and order:
+                pols = tuple(_pol_minmax(ast.unparse(e)) for e in tg.elts)
+                if None not in pols:
+                    n += 1
+                    R.check(
+                        pols == order,
+                        m,
+                        st,
+                        f"Balancer.{name}: _range unpacked in the order it returns",
+                        f"Balancer.{name} unpacks `{norm(st)}`: _range returns {order}, so the name meant as the "
+                        f"{pols[0]}imum receives the {order[0]}imum: every bound derived from it is on the wrong side "
+                        f"(invisible while the operand is a single value)",
+                    )
+                continue
+            if not isinstance(tg, ast.Name):
+                continue
+            pol = _pol_minmax(tg.id)
+            if pol is not None and not any(isinstance(x, (ast.USub, ast.Sub, ast.Invert)) for x in ast.walk(val)):
+                srcs = []
+                if isinstance(val, ast.Call):
+                    d = (dotted(val.func) or "")
+                    last = d.split(".")[-1]
+                    if d not in ("min", "max") and _pol_minmax(last) is not None:
+                        srcs.append((d, _pol_minmax(last)))
+                for x in ast.walk(val):
+                    if isinstance(x, ast.Name) and _pol_minmax(x.id) is not None and not (isinstance(getattr(x, "_parent", None), ast.Call) and x._parent.func is x):
+                        srcs.append((x.id, _pol_minmax(x.id)))
+                if srcs:
+                    n += 1
+                    wrong = [s for s, p in srcs if p != pol]
+                    R.check(
+                        not wrong,
+                        m,
+                        st,
+                        f"Balancer.{name}: {tg.id} is fed by {pol}-polarity values",
+                        f"Balancer.{name} computes the {pol}imum-side value `{tg.id}` from {wrong} (`{norm(st)}`): a bound "
+                        f"of the opposite polarity makes the narrowed range exclude values that satisfy the constraint",
+                    )
+            side = _pol_side(tg.id)
+            if side is not None:
+                # `side[a:b]` cuts bits out of `side`: the slice bounds may mention the other operand's width
+                where = val.value if isinstance(val, ast.Subscript) and isinstance(val.slice, ast.Slice) else val
+                ks = set()
+                stack = [where]
+                while stack:
+                    x = stack.pop()
+                    if isinstance(x, ast.Call) and (dotted(x.func) == "len" or (isinstance(x.func, ast.Attribute) and x.func.attr == "size")):
+                        continue  # a width, not the operand
+                    if isinstance(x, ast.Subscript) and ast.unparse(x.value) == "truism.args" and isinstance(x.slice, ast.Constant):
+                        ks.add(x.slice.value)
+                    stack.extend(ast.iter_child_nodes(x))
+                if len(ks) == 1:
+                    n += 1
+                    k = next(iter(ks))
+                    R.check(
+                        k == side,
+                        m,
+                        st,
+                        f"Balancer.{name}: {tg.id} is taken from side {side} of the comparison",
+                        f"Balancer.{name} takes `{tg.id}` from truism.args[{k}] (`{norm(st)}`): the value that is checked "
+                        f"or moved as the {'right' if side else 'left'}-hand side is the other operand, so the "
+                        f"rebalanced comparison is not implied by the original one",
+                    )
+    R.need(n >= 10, f"only {n} polarity-named assignments found in the balancer")
